@@ -361,7 +361,7 @@ def refresh_obligations(ctx: Any, R: str) -> List[Ob]:
     recvar = norm(loop.target)
     floor_calls = [c for c in ast.walk(loop) if isinstance(c, ast.Call) and call_name(c) == 'set_created_ttl' and isinstance(c.func, ast.Attribute) and norm(c.func.value) == recvar]
     if len(floor_calls) != 1:
-        raise AnalysisError('anchor vanished: the PTR floor `<record>.set_created_ttl(...)` in the record loop')
+        return [ob(R, f, loop, 'the pointer-TTL floor is applied to the received record inside the record loop, before the record is looked up, copied into the cached entry, paired for listeners or queued', False, f'{len(floor_calls)} floor call(s) `<record>.set_created_ttl(...)` in the loop: a floor applied elsewhere (for instance when the cache stores a NEW record) does not reach a refresh of an already cached pointer, nor the pairs shown to listeners')]
     fc = floor_calls[0]
     # --- refresh of an existing entry takes the received record's *current* lifetime (after the floor)
     entry_vars = [st.targets[0].id for st in ast.walk(loop) if isinstance(st, ast.Assign) and isinstance(st.targets[0], ast.Name) and isinstance(st.value, ast.Call) and call_name(st.value) == 'async_get_unique']
@@ -444,7 +444,7 @@ def floorflush(ctx: Any) -> List[Ob]:
     recvar = norm(loop.target)
     floor_calls = [c for c in ast.walk(loop) if isinstance(c, ast.Call) and call_name(c) == 'set_created_ttl' and isinstance(c.func, ast.Attribute) and norm(c.func.value) == recvar]
     if len(floor_calls) != 1:
-        raise AnalysisError('anchor vanished: the PTR floor `<record>.set_created_ttl(...)` in the record loop')
+        return refresh_obligations(ctx, R)  # reports the missing floor as a violation
     fc = floor_calls[0]
     obs.extend(refresh_obligations(ctx, R))
     okv, v = prog.try_fold(f.module, fc.args[1]) if len(fc.args) == 2 else (False, None)
